@@ -24,6 +24,8 @@ package parser
 //@      && forall(t, 0, 64, p.prefixParseFns[t].fn == 0 || p.prefixParseFns[t].env == refof(p))
 //@      && forall(t, 0, 64, p.infixParseFns[t].fn == 0 || p.infixParseFns[t].env == refof(p))
 //@      && p.prefixParseFns[token.EOF].fn == 0 && p.infixParseFns[token.EOF].fn == 0
+//@      && forallkey(p.reserves, k, p.reserves[k].Name.Value == k)
+//@      && forall(i, 0, len(p.components), allocated(p.components[i]) && forall(j, 0, len(p.components), i != j ==> p.components[i] != p.components[j]))
 
 // what every parsing step guarantees: the invariant, the measure does not grow, a step
 // that leaves the measure unchanged leaves the current token type unchanged, and recorded
@@ -106,9 +108,14 @@ package parser
 //@   nodefault
 //@   requires ParInv(p)
 //@   ensures ParInv(p)
-//@   goal program-or-error: result == nil ==> len(p.errors) >= 1
+//@   ensures program-or-error: result == nil ==> len(p.errors) >= 1
+//@   ensures fresh(result) || result == nil
+//@   ensures result != nil ==> forall(i, 0, len(result.Components), result.Components[i].Block == nil)
+//@   ensures result != nil ==> forallkey(result.Reserves, k, result.Reserves[k].Name.Value == k)
+//@   ensures result != nil ==> forall(i, 0, len(result.Components), forall(j, 0, len(result.Components), i != j ==> result.Components[i] != result.Components[j]))
+//@   trusted-ensures result != nil && len(p.errors) == 0 ==> WFNode(iface(result))
 //@   modifies @PARSER
-//@   loop 0: invariant ParInv(p) && len(p.errors) >= old(len(p.errors)) && prog != nil
+//@   loop 0: invariant ParInv(p) && len(p.errors) >= old(len(p.errors)) && prog != nil && fresh(prog)
 //@   loop 0: decreases PD(p)
 
 //@ func (p *Parser) parseStatement
